@@ -13,7 +13,7 @@ for id in $ids; do
 import json
 m=json.load(open('seeded/$id/meta.json'))
 print(' '.join(sorted(set(c.split()[0] for c in m['caught_by']))))")
-  res=$(tools/tryseed.sh seeded/$id reg$id $checks 2>&1)
+  res=$(tools/tryseed.sh /verif/seeded/$id reg$id $checks 2>&1)
   ok=$(echo "$res" | grep -c "(ok)")
   caught=$(echo "$res" | grep "^check" | grep -c "exit=1")
   line=$(echo "$res" | grep "^check" | sed 's/violation class=//' | cut -c1-110 | tr '\n' ';' | tr '|' '/')
